@@ -84,4 +84,20 @@ def chainStep (op : String) (args : List String) : Option String :=
     | _ => none
   | _, _ => none
 
+/-- `cni.gen <old> <list> …`: `terway-cli cni` run on a node where an earlier run may have left a file at `--output`
+(`old`: none, a shorter one, a longer one).  What a reader of the file gets is `CniChain.generate`, which does not look at
+what was there; with `list = 0` the input is a single plugin configuration (`10-terway.conf`). -/
+def genStep (args : List String) : Option String :=
+  match args with
+  | old :: list :: rest =>
+    if !(old == "none" || old == "short" || old == "long") then none else
+    if !(list == "0" || list == "1") then none else
+    match rest with
+    | _ :: _ :: _ :: _ :: _ :: _ :: toks =>
+      match parseVal toks with
+      | some (.arr ps, []) => if list == "0" && ps.length != 1 then none else chainStep "chain" rest
+      | _ => none
+    | _ => none
+  | _ => none
+
 end Terway.Drv.JsonD
